@@ -33,7 +33,7 @@ fn main() {
     let parts = par::for_each_index(n_rates, 1 << 16, rates::ASt::default, rates::check_rate);
     let mut a = rates::ASt::default();
     let (mut max_rel_small, mut max_rel_large) = ((0.0f64, 1u32), (0.0f64, 1u32));
-    let mut a_viol: BTreeMap<String, rates::KeyBest> = BTreeMap::new();
+    let mut a_viol: BTreeMap<&'static str, rates::KeyBest> = BTreeMap::new();
     for p in parts {
         a.rates += p.rates;
         a.saturating += p.saturating;
@@ -50,11 +50,12 @@ fn main() {
         if rs > max_rel_small.0 { max_rel_small = (rs, bs) }
         let (rl, bl) = rates::ASt::max_rel(&[&p.max_num_large]);
         if rl > max_rel_large.0 { max_rel_large = (rl, bl) }
-        rates::ASt::merge_viol(&mut a_viol, p.viol);
+        rates::ASt::merge_viol(&mut a_viol, &p.viol);
     }
     for (key, kb) in a_viol {
         // one record per class, carrying the LARGEST failing rate and the number of failing rates
-        rep.violations.by_key.insert(key.clone(), Violation { key, what: format!("{} [largest failing rate; {} rates fail this way]", kb.what, kb.count), replay: kb.replay, count: kb.count });
+        let (what, replay) = rates::ASt::explain(key, kb.best_bits).unwrap_or_else(|| ("(not reproduced on re-evaluation)".into(), json!({"rate_bits": kb.best_bits})));
+        rep.violations.by_key.insert(key.to_string(), Violation { key: key.to_string(), what: format!("{what} [largest failing rate; {} rates fail this way]", kb.count), replay, count: kb.count });
     }
     let a_wall = t.elapsed().as_secs_f64();
     let a_exhaustive = a.rates == n_rates;
@@ -127,7 +128,7 @@ fn main() {
     let spaces = [
         congress::Space { name: "3 groups x volumes {0,1,5,40}", groups: 3, volumes: vec![0, 1, 5, 40], depth: tier.pick(3, 4) },
         // long enough for a group to idle out (9 updates without observations) and come back
-        congress::Space { name: "2 groups x volumes {0,11} (idle-out horizon)", groups: 2, volumes: vec![0, 11], depth: tier.pick(11, 12) },
+        congress::Space { name: "2 groups x volumes {0,11} (idle-out horizon)", groups: 2, volumes: vec![0, 11], depth: tier.pick(10, 12) },
     ];
     let (mut histories, mut intervals, mut entries) = (0u64, 0u64, 0u64);
     let mut states: HashSet<congress::Canon> = HashSet::new();
